@@ -499,7 +499,8 @@ where
 
     if a_scale > 0 {
         let shift = (a_scale as usize).min(a_size);
-        let sum_size = a_size.min(res_size).saturating_sub(shift);
+        // limbs shift.. of `a` land on limbs 0.. of `res`: a_size - shift of them, at most res_size
+        let sum_size = (a_size - shift).min(res_size);
         for j in 0..sum_size {
             BE::ntt_add_assign(limb_u64_mut(&mut res, res_col, j), limb_u64(&a, a_col, j + shift));
         }
